@@ -313,7 +313,7 @@ pub fn run_case(c: &Case, out: &mut dyn Write) {
 pub fn gen_cases(seed: u64, n: usize, tier: &str, out: &mut dyn Write) {
     // types whose failures are listed as known findings are searched by the oracle only; this stream
     // expects `ok` for every case
-    let types: Vec<(&'static str, RunFn)> = types_list().into_iter().filter(|(n, _)| *n != "sixlowpan-iphc-tf").collect();
+    let types: Vec<(&'static str, RunFn)> = types_list().into_iter().filter(|(n, _)| *n != "sixlowpan-iphc-tf" && *n != "ieee802154-outside-layout").collect();
     for i in 0..n {
         let (name, _) = types[i % types.len()];
         Case { id: format!("g{}-{}", seed, i), cfg: vec![("fmt".into(), "oracle".into()), ("kind".into(), "c06".into()), ("type".into(), name.into())], ops: vec![format!("seed {} {}", subseed(seed, i), tier)] }
